@@ -5,6 +5,9 @@ INVARIANT Partition
 INVARIANT Blocks
 INVARIANT RoundTrip
 INVARIANT Gate
+INVARIANT Kept
+INVARIANT LazyUnobservable
+INVARIANT Untouched
 VIEW View
 CHECK_DEADLOCK FALSE
 CONSTANTS
@@ -18,3 +21,5 @@ CONSTANTS
   MaxRes = 0
   Access = FALSE
   Fills = {"l0", "all"}
+  History = FALSE
+  MaxOps = 0
